@@ -150,7 +150,7 @@ def history(ctx, rng, length, hid):
 
     for step in range(length):
         r = rng.random()
-        ts = 1000.0 + step
+        ts = rng.choice([0.0, 1000.0 + step, 1000.0 + step, 1.75e9 + step * 0.001, 2.5e-7])
         if r < 0.22:
             cid, name = rng.choice(USER_IDS), rng.choice(names)
             ops.append(("subscribe", hex(cid), name))
